@@ -73,8 +73,8 @@
                            one position (C01's domain; Dispatch has literal and single-field segments)
        sink-vocabulary     some sink prefix is not made of literal text, (?P<n>\d+), (?P<n>[^/]+), or a static
                            prefix is not "/literal/"
-       order-unknown       the order of the add_sink / add_static_route calls was not observed, or one
-                           callable serves several sinks
+       order-unknown       the order of the add_sink / add_static_route calls was not observed (obs.ids: the
+                           assembly calls that registered the callable that ran; one callable may serve several)
        responder-unnamed   the picked responder cannot be named (no uri_template, not an on_* method,
                            non-string keyword arguments)
      part S (in addition to part D)
@@ -235,7 +235,7 @@ DispVerdict ==
     IF DispSkip # "" THEN "skip/" \o DispSkip
     ELSE LET o == Decision IN
          IF Dd.obs.kind # KindName(o.kind) THEN "P:who"
-         ELSE IF o.kind \in {"Responder", "Sink", "Static"} /\ Dd.obs.id # o.id THEN "P:who"
+         ELSE IF o.kind \in {"Responder", "Sink", "Static"} /\ o.id \notin SeqRange(Dd.obs.ids) THEN "P:who"
          ELSE IF o.kind = "Responder" /\ Dd.obs.sfx # o.sfx THEN "P:suffix"
          ELSE IF o.kind \in {"Responder", "Sink"} /\ ObsKw # o.kw THEN "P:kwargs"
          ELSE "ok"
